@@ -104,9 +104,17 @@ def run(ctx):
         "evaluations": summary.get("comparisons", 0),
         "distinct_nontrivial": summary.get("distinct_outputs", 0),
         "programs": summary.get("programs", 0),
-        "rule": "programs: corpus/C20/progs (hand-written dependents of corpus/C20/lib incl. one with errors), a seeded "
+        "rule": "crate graph: program -> c20lib (cached) -> c20util v1 and program -> c20util v2: every crate is registered "
+                "with a discriminator, two crates share the name c20util, crates differ in edition / version / cfg set / "
+                "experimental features. c20lib exposes every visibility on every item kind (fn, const, struct + members, "
+                "enum, mod, use, glob use, trait, impl, type alias, impl alias), feature kinds (unstable / deprecated / "
+                "internal with and without note), must_use / phantom / doc(hidden), const generics, negative impls, impl "
+                "aliases, trait types/consts/impls, declared macros, cfg-dependent items, re-exports of the third crate. "
+                "programs: corpus/C20/progs (hand-written dependents incl. ones that must be rejected: E2099 visibility, "
+                "feature warnings, mixed crate versions, cfg-absent items, generic bounds), generated diagnostics programs "
+                "(30 kinds of accesses that must be rejected or warned about because of what the cache stores), a seeded "
                 "sample (all in the thorough tier) of /repo/examples and /repo/tests/bug_samples files as dependents of the "
-                "core library, and programs generated from VERIF_SEED out of 46 snippet kinds that instantiate the "
+                "core library, and programs generated from VERIF_SEED out of 72 snippet kinds that instantiate the "
                 "library's generics/impls/trait default functions/associated items/consts/inline functions/loops/closures "
                 "and core-library generics (dict, u256, byte arrays, hashes, conversions). For each optimisation "
                 "configuration (default inlining, inlining avoided, optimisations disabled) one database compiles all "
